@@ -3,8 +3,7 @@
   implementation's, and parsing of the harness' lines (operations, dumps, responses).
   Used only by the driver.  Core Lean only.
 -/
-import NdnVerif.C17.Model
-import NdnVerif.C17.Spec
+import NdnVerif.C17.Obs
 namespace Ndn.C17
 
 def joinOrDash (xs : List String) (sep : String) : String :=
@@ -31,14 +30,12 @@ def faceText (f : Face) : String :=
   let fl := if f.ndnlp then faceFlags f else 0
   let b := if f.ndnlp then toString f.bcmi else "-"
   let d := if f.ndnlp then toString f.dct else "-"
-  s!"{f.id}:{f.uri}:{f.scope}:{f.pers}:{f.mtu}:{fl}:{b}:{d}"
+  s!"{f.id}:{f.uri}:{if f.isLocal then 1 else 0}:{f.pers}:{f.mtu}:{fl}:{b}:{d}"
 
 def facesText (fs : List Face) : String := joinOrDash ((canonFaces fs).map faceText) "|"
 
 def tablesText (t : Tables) : String :=
   s!"rib={ribText t.rib} fib={fibText t.fib} sc={scText t.sc} cs={t.cs} faces={facesText t.faces}"
-
-def tablesOf (st : St) : Tables := ⟨st.rib, st.fib, st.sc, st.cs, st.faces⟩
 
 def bytesHex (b : Bytes) : String := hexOrDash b
 
@@ -120,12 +117,12 @@ def parseFace (s : String) : Option Face :=
   let uri := ":".intercalate ((ps.drop 1).take (ps.length - 7))
   match tailv with
   | [sc, pe, mtu, fl, b, d] => do
-    let id ← id.toNat?; let sc ← sc.toNat?; let pe ← pe.toNat?; let mtu ← mtu.toNat?; let fl ← fl.toNat?
+    let id ← id.toNat?; let sc ← (if sc == "1" then some true else if sc == "0" then some false else none); let pe ← pe.toNat?; let mtu ← mtu.toNat?; let fl ← fl.toNat?
     let scheme := (uri.splitOn "://").head!
     let ndnlp := b != "-"
     let b ← (if ndnlp then b.toNat? else some 0)
     let d ← (if ndnlp then d.toNat? else some 0)
-    pure { id := id, uri := uri, rscheme := scheme, lscheme := scheme, scope := sc, pers := pe, mtu := mtu,
+    pure { id := id, uri := uri, rscheme := scheme, lscheme := scheme, isLocal := sc, pers := pe, mtu := mtu,
            ndnlp := ndnlp, localFields := fl % 2 == 1, congMark := fl / 4 % 2 == 1, bcmi := b, dct := d }
   | _ => none
 
